@@ -299,7 +299,22 @@ func MutationMatrix(s *Script, full bool) {
 		if _, _, err := kr.Wallet(b.signer).SignTrxProto(c, chain); err == nil {
 			s.DeliverRaw(Encode(c), "protosig", b.name+":protosig")
 		}
+		// a transaction signed for a FUTURE nonce, lowered to the current one after signing
+		fut := b.build()
+		fut.Nonce++
+		futBz := s.B.Sign(fut, b.signer, chain)
+		low := cloneTx(futBz)
+		low.Nonce--
+		s.DeliverRaw(Encode(low), "mut:nonce lowered", b.name+":mut:nonce-lowered")
 		s.expect(OK(s.DeliverRaw(good, "", b.name)), "the unmutated "+b.name+" transaction succeeds")
+		// after it took effect: the same signed bytes with the nonce raised to the sender's new nonce
+		rep := cloneTx(good)
+		rep.Nonce++
+		s.DeliverRaw(Encode(rep), "mut:nonce raised after execution", b.name+":mut:nonce-replay")
+		s.DeliverRaw(good, "", "replay:"+b.name)
+		s.End()
+		s.Begin(allHdr)
+		s.DeliverRaw(Encode(rep), "mut:nonce raised after execution", b.name+":mut:nonce-replay")
 		s.End()
 	}
 	s.Blocks(2, allHdr)
